@@ -1102,14 +1102,25 @@ func (g *Gen) rangeNext(ins ssa.Instruction) {
 	switch x := ins.(type) {
 	case *ssa.Range:
 		if isString(x.X.Type()) {
-			// iterator state: a local pseudo-cell holding the byte position
-			g.rangeIters[x] = g.val(x.X)
-			g.env[x] = &SV{V: Val{T: x.Type(), C: []Term{g.zeroI()}}}
 			oos("range over string")
 		}
-		oos("range over map")
+		// map iteration: opaque iterator
+		g.env[x] = &SV{V: Val{T: x.Type(), C: []Term{tInt(0)}}}
 	case *ssa.Next:
-		oos("next")
+		if x.IsString {
+			oos("range over string")
+		}
+		// (ok, key, value): unconstrained
+		tup := x.Type().(*types.Tuple)
+		res := Val{T: x.Type()}
+		res.C = append(res.C, g.fresh("mapnext_ok", SBool))
+		for i := 1; i < tup.Len(); i++ {
+			if b, ok := tup.At(i).Type().(*types.Basic); ok && b.Kind() == types.Invalid {
+				continue
+			}
+			res.C = append(res.C, g.freshVal("mapnext", tup.At(i).Type(), g.st).C...)
+		}
+		g.env[x] = &SV{V: res}
 	}
 }
 
